@@ -639,6 +639,10 @@ class DirectoryRecord:
             raise pycdlibexception.PyCdlibInternalError('Directory Record already initialized')
 
         self._new(vd, b'\x01', parent, seqnum, True, log_block_size, xa, date_seconds)
+        if parent.parent is not None:
+            # The dotdot entry describes the parent directory, which may
+            # already span more than one logical block.
+            self.data_length = parent.parent.data_length
         if rock_ridge:
             self._rr_new(rock_ridge, b'', b'', False, False, rr_relocated_parent,
                          file_mode, date_seconds)
